@@ -139,8 +139,9 @@ def real_call(cfg, state, obs_list, user):
     state.sample = rec
     try:
         try:
-            raw = target.statistics(state, cfg["S"], num_chains=cfg["C"], burn_in=cfg["burn"], steps=cfg["steps"],
-                                    initial_state=user, overwrite=cfg["ow"])
+            raw = common.api_call(target.statistics, ["num_samples", "num_chains", "burn_in", "steps", "initial_state", "overwrite"],
+                                  dict(num_samples=cfg["S"], num_chains=cfg["C"], burn_in=cfg["burn"], steps=cfg["steps"],
+                                       initial_state=user, overwrite=cfg["ow"]), first=(state,))
             out["raw"] = raw
             if cfg["kind"] == "obs":
                 out["res"] = [raw]
